@@ -119,6 +119,7 @@ type Action struct {
 	After      []Extra
 	PadTo      int  // >0: the reply is padded (one TXT record in the additional section) to exactly this many octets
 	ShortTo    int  // 1..11: the reply is only its first ShortTo octets - a complete frame (or datagram) that is shorter than a DNS header
+	LowerQ     bool // the name in the reply's question section is lower-cased (a server that normalises names; the query used mixed case)
 	NoQuestion bool // the reply is a bare 12-octet header (QDCOUNT=0) with the query's id, QR and - if TC is set - TC
 	Window     int  // >1: hold until Window replies are held on the connection (or WindowWait), then send them in reverse arrival order
 	WindowWait time.Duration
@@ -941,6 +942,18 @@ func shapeReply(msg []byte, act *Action) []byte {
 		h := append([]byte{}, msg[:12]...)
 		h[4], h[5], h[6], h[7], h[8], h[9], h[10], h[11] = 0, 0, 0, 0, 0, 0, 0, 0
 		return h
+	}
+	if act.LowerQ {
+		msg = append([]byte{}, msg...)
+		for off := 12; off < len(msg) && msg[off] != 0 && msg[off] < 64; {
+			l := int(msg[off])
+			for k := off + 1; k <= off+l && k < len(msg); k++ {
+				if 'A' <= msg[k] && msg[k] <= 'Z' {
+					msg[k] += 'a' - 'A'
+				}
+			}
+			off += l + 1
+		}
 	}
 	if act.PadTo > len(msg)+12 {
 		rem := act.PadTo - len(msg) - 11 // root owner (1) + type, class, ttl, rdlength (10)
